@@ -270,7 +270,47 @@ def C12(ctx):
     return ctx.finish(min_evals=15000, min_buckets=120)
 
 
-CHECKS = {"C03": C03, "C12": C12, "C01": C01, "C02": C02, "C05": C05, "C11": C11, "C13": C13, "C04": C04, "C06": C06, "C14": C14, "C15": C15, "C16": C16, "C07": C07, "C08": C08, "C09": C09, "C10": C10, "C17": C17, "C19": C19, "C20": C20}
+def C18(ctx):
+    ctx.rule = ("14 pipeline kinds (5 encoder configurations incl. managed and 5.1, packet decode, vorbisfile linear / seek script / lapped seeks / half-rate / streaming on SHARED "
+                "read-only input bytes, model-made stream decode, header+comment operations, encode-mux-decode); (1) TSan build: rounds of 16 threads released by a barrier, each "
+                "running a pipeline whose solitary output hash was computed beforehand; any ThreadSanitizer report or any hash differing from the solitary run fails; (2) the same "
+                "under ASan; (3) repeatability: every pipeline is run in separate processes under three allocator fill regimes (malloc/free fill 0x00, 0xA5, 0xFF through the "
+                "sanitizer allocator, quarantine on) combined with three stack pre-dirtying patterns, and twice inside one process; all output hashes must be equal; (4) valgrind "
+                "memcheck (uninstrumented build) on the pipelines: any use of an uninitialised value or invalid access inside the library fails; (5) rounding mode and MXCSR "
+                "control bits unchanged across each pipeline; evaluation = one pipeline execution compared; bucket = (pipeline kind, regime)")
+    ctx.assumptions = TRUST_COMMON + ["TSan sees libvorbis (instrumented) but not libogg; schedule diversity is what 16 threads on 16 cores produce - a race needs both accesses executed, not a particular interleaving, to be reported",
+                                      "valgrind runs a reduced number of cases (about 20-50x slower)"]
+    quick = ctx.tier != "thorough"
+    ctx.run("tsan", "thrmon", "c18t", 10 if quick else 300, batch=1 if quick else 4, extra_src=SPEC, workers=2 if quick else 4, timeout=1800)
+    ctx.run("san", "thrmon", "c18t", 4 if quick else 60, batch=1, extra_src=SPEC, workers=2 if quick else 4, timeout=1800)
+    base = run.SAN_ENV["ASAN_OPTIONS"]
+    regimes = [("fill00", "malloc_fill_byte=0:free_fill_byte=0", "0x00"), ("fillA5", "malloc_fill_byte=165:free_fill_byte=90", "0xA5"), ("fillFF", "malloc_fill_byte=255:free_fill_byte=255", "0x7F")]
+    ncase = 14 * (3 if quick else 40)
+    hashes = {}
+    for name, opt, stack in regimes:
+        recs = ctx.run("san", "thrmon", "c18h", ncase, extra_src=SPEC,
+                       env_extra={"ASAN_OPTIONS": base + ":max_malloc_fill_size=1073741824:max_free_fill_size=1073741824:" + opt, "VH_STACK_POISON": stack})
+        for r in recs:
+            hashes.setdefault(r["case"], {})[name] = r.get("sample", "").split("hash=")[-1]
+    ncmp = 0
+    for cid, hs in sorted(hashes.items()):
+        if len(hs) == len(regimes):
+            ncmp += 1
+            if len(set(hs.values())) != 1:
+                ctx.viols.append({"prop": "C18", "key": "output-depends-on-memory-contents:pipeline-%d" % (cid % 14),
+                                  "detail": "case %d: hashes per fill regime %s" % (cid, hs),
+                                  "replay": {"flavour": "san", "driver": "thrmon", "mode": "c18h", "seed": ctx.seed, "tier": ctx.tier, "case": cid, "extra": [], "env": {}}})
+            else:
+                ctx.buckets.add("c18h|fill-regimes-agree|pipeline-%d" % (cid % 14))
+    ctx.evals += ncmp
+    ctx.add_count("fill_regime_comparisons", ncmp)
+    vg = ["valgrind", "-q", "--error-exitcode=88", "--undef-value-errors=yes", "--track-origins=no", "--leak-check=no", "--max-stackframe=8388608"]
+    ctx.run("plain", "thrmon", "c18h", 14 if quick else 140, batch=1, extra_src=SPEC, wrapper=vg, timeout=3000,
+            env_extra={"VH_CPU": "2000"})
+    return ctx.finish(min_evals=100, min_buckets=40)
+
+
+CHECKS = {"C18": C18, "C03": C03, "C12": C12, "C01": C01, "C02": C02, "C05": C05, "C11": C11, "C13": C13, "C04": C04, "C06": C06, "C14": C14, "C15": C15, "C16": C16, "C07": C07, "C08": C08, "C09": C09, "C10": C10, "C17": C17, "C19": C19, "C20": C20}
 
 _SAN = ("sanitizer findings (ASan, UBSan bounds/null/div-by-zero/pointer-overflow subset, LeakSanitizer), fatal signals and "
         "CPU-budget overruns in the same runs also fail the check")
@@ -366,6 +406,12 @@ META.update({
                           "runs per quick run): failures surface as error codes or EOF, nothing is closed behind the caller, nothing hangs, and after the fault clears seeks and reads equal a "
                           "never-faulted decode; " + _SAN,
             "level_note": "Trusted: harness callbacks and reference decode. Enumeration is exhaustive per scenario up to the stated per-kind cap."},
+})
+META.update({
+    "C18": {"technique": "runtime monitor: ThreadSanitizer + solitary-vs-concurrent output hashes; allocator-fill / stack-dirt differential; valgrind memcheck; FPU state probes",
+            "level_text": "Held on the executions observed: no ThreadSanitizer report and no output difference for 14 pipeline kinds run 16 at a time against their solitary runs; identical outputs "
+                          "under three heap-fill regimes and stack patterns and across repeated runs; no uninitialised-value use under memcheck; FPU control state preserved",
+            "level_note": "Trusted: libogg (uninstrumented under TSan), harness. Thread-schedule diversity is limited to what the machine produces."},
 })
 LEVEL = {"C12": "fault_enumeration"}
 
